@@ -159,6 +159,20 @@ def param_tag_checked(F, f, idx, want, depth=0):
     return True
 
 
+def promoted_type(fn, v):
+    while isinstance(v, tuple) and v and v[0] in ('deref', 'ref'):
+        v = v[1]
+    if v[0] != 'promoted':
+        return None
+    for p in fn.j.get('promoted') or []:
+        if p['i'] == v[1]:
+            for bl in p['blocks']:
+                for st in bl['stmts']:
+                    if st['k'] == 'assign' and st['rv']['k'] == 'aggregate' and st['rv'].get('adt') == 'object::Type':
+                        return st['rv']['variant']
+    return None
+
+
 def d3_table(ctx):
     """rows: (function, callee-or-assert suffix or None for any, supporting rule, verifier(ctx, site)->(ok, why))"""
     F = ctx.facts()
@@ -200,7 +214,26 @@ def d3_table(ctx):
         bad = []
         for f, b, t in F.callers_of(lambda p: p == fnpath):
             if len(f.blocks) > 150:
-                bad.append(f.path + ' (body too large)')
+                # large body (dispatch loop): use the dominating branches of the call block
+                obj = psc.unref(sym(f, t['args'][0]))
+                okc = False
+                names = {d: n for n, d in F.enum_variants('object::Type')}
+                for fa in facts_at(f, b):
+                    if fa[0] == 'callbool' and ('PartialEq' in fa[1][1]):
+                        is_ne = fa[1][1].endswith('ne')
+                        equal = (fa[2] and not is_ne) or ((not fa[2]) and is_ne)
+                        a0, a1 = [psc.unref(x) for x in fa[1][2]]
+                        for x, y in ((a0, a1), (a1, a0)):
+                            if x[0] == 'call' and x[1] == 'object::Object::tag' and psc.unref(x[2][0]) == obj:
+                                ty = y[2] if y[0] in ('enum', 'agg') else (promoted_type(f, y) if y[0] in ('promoted', 'deref') else None)
+                                if equal and ty == want:
+                                    okc = True
+                    elif fa[0] == 'variant' and fa[2] == 'object::Type':
+                        src = psc.unref(fa[1])
+                        if src[0] == 'call' and src[1] == 'object::Object::tag' and psc.unref(src[2][0]) == obj and [names.get(v) for v in fa[3]] == [want]:
+                            okc = True
+                if not okc:
+                    bad.append('%s:%s' % (f.path, t['span']['line']))
                 continue
             okc = False
             seen = False
@@ -331,6 +364,7 @@ def d3_table(ctx):
         ('symbols::SymbolTable::leave_context', None, 'R09.1', symbols_pairing),
         ('symbols::SymbolTable::leave_scope', None, 'R09.1', symbols_pairing),
         ('symbols::SymbolTable::resolve', 'index', 'R09.1', symbols_pairing),
+        ('symbols::SymbolTable::reset_to_global', 'index_mut', 'R09.1', symbols_pairing),
         ('object::Object::as_f64', 'assert_failed', 'tag-checked callers', tag_checked_callers),
         ('object::Object::as_str', 'assert_failed', 'tag-checked callers', tag_checked_callers),
         ('object::Object::as_string_mut', 'assert_failed', 'tag-checked callers', tag_checked_callers),
